@@ -8,7 +8,7 @@ import threading
 import time
 
 DIR = os.environ.get('VERIF_INJECT_DIR')
-ENTRY = {('thread.py', '_run'), ('process.py', '_run'), ('remote.py', '_run_backend')}
+ENTRY = {('thread.py', '_run'), ('process.py', '_run'), ('remote.py', '_run_backend'), ('remote.py', '_run_frontend')}
 SPIN = float(os.environ.get('VERIF_INJECT_SPIN', '1.5'))
 
 _armed = {}      # thread ident -> state dict
@@ -54,6 +54,8 @@ def _global(frame, event, arg):
             return None
         if not name or not isinstance(name, str):
             return None
+        if code.co_name == '_run_frontend':
+            name = name + '.front'      # the parent-side forwarding thread has its own spec
         spec_path = os.path.join(DIR, name + '.spec.json')
         try:
             with open(spec_path) as f:
